@@ -430,7 +430,8 @@ fn deep<W: Write>(out: &mut Out<W>, depths: &[usize], small: bool) {
             format!("a = {{ {}\"x\" }}", "!".repeat(d)),
             format!("a = {{ {}\"x\"{} }}", "&(".repeat(d), ")".repeat(d)),
             format!("a = {{ {}\"x\"{} }}", "PUSH(".repeat(d), ")".repeat(d)),
-            format!("a = {{ {}\"x\"{} }}", "(\"y\" | ".repeat(d), ")*".repeat(d)),
+            // choices inside repetitions: the passes are cubic in the depth here (see mode `scale`), so this shape stops at 300
+            format!("a = {{ {}\"x\"{} }}", "(\"y\" | ".repeat(d.min(300)), ")*".repeat(d.min(300))),
             format!("a = {{ \"x\" }} {}{}", "/*".repeat(d), "*/".repeat(d)),
             format!("a = {{ {}\"x\"", "(".repeat(d)),
             format!("a = {{ {}\"x\"{} }}", "(#t = ".repeat(d), ")".repeat(d)),
